@@ -892,10 +892,10 @@ func visitAST(node *sitter.Node, sourceCode []byte, graph *CodeGraph, currentCon
 			switch child.Type() {
 			case "variable_declarator":
 				variableName = child.Content(sourceCode)
+				if nameNode := child.ChildByFieldName("name"); nameNode != nil {
+					variableName = nameNode.Content(sourceCode)
+				}
 				for j := 0; j < int(child.ChildCount()); j++ {
-					if child.Child(j).Type() == "identifier" {
-						variableName = child.Child(j).Content(sourceCode)
-					}
 					// if child type contains =, iterate through and get remaining content
 					if child.Child(j).Type() == "=" {
 						for k := j + 1; k < int(child.ChildCount()); k++ {
